@@ -147,3 +147,43 @@ Proof.
   - intros [a [Ha Hcy]]. exists a. split; auto. apply (reach_b_spec vs es r Hok). apply memb_in. exact Ha.
   - intros [a [Ha Hcy]]. exists a. split; auto. apply (reach_b_spec vs es r Hok) in Ha. apply memb_in in Ha. exact Ha.
 Qed.
+
+(* ------------------------------------------------------------------ completeness of the topological-order validator
+   (no false alarm): every topological order of (vs, es) is accepted *)
+Lemma nodup_b_complete l : NoDup l -> nodup_b l = true.
+Proof.
+  induction 1 as [|a l Hn _ IH]; cbn; [reflexivity|].
+  apply andb_true_iff. split; [apply negb_true_iff, memb_false; exact Hn|exact IH].
+Qed.
+
+Lemma pos_app_notin x l1 l2 : forall k, ~ In x l1 -> pos x (l1 ++ x :: l2) k = Some (k + N.of_nat (length l1)).
+Proof.
+  induction l1 as [|y l1 IH]; intros k Hn; cbn [app pos length].
+  - rewrite N.eqb_refl. f_equal. cbn. lia.
+  - destruct (N.eqb_spec x y) as [->|Hne]; [exfalso; apply Hn; left; reflexivity|].
+    rewrite IH; [f_equal; lia|intros H; apply Hn; right; exact H].
+Qed.
+
+Lemma before_complete l1 a l2 b l3 :
+  NoDup (l1 ++ a :: l2 ++ b :: l3) -> before (l1 ++ a :: l2 ++ b :: l3) a b = true.
+Proof.
+  intros Hn. unfold before.
+  assert (E : l1 ++ a :: l2 ++ b :: l3 = (l1 ++ a :: l2) ++ b :: l3) by (rewrite <- app_assoc; reflexivity).
+  assert (Ha : ~ In a l1).
+  { pose proof (NoDup_remove_2 _ _ _ Hn) as H. intros Hi. apply H. apply in_or_app. left. exact Hi. }
+  assert (Hb : ~ In b (l1 ++ a :: l2)).
+  { rewrite E in Hn. pose proof (NoDup_remove_2 _ _ _ Hn) as H. intros Hi. apply H. apply in_or_app. left. exact Hi. }
+  assert (Pb : pos b (l1 ++ a :: l2 ++ b :: l3) 0 = Some (0 + N.of_nat (length (l1 ++ a :: l2))))
+    by (rewrite E; apply pos_app_notin; exact Hb).
+  rewrite (pos_app_notin a l1 (l2 ++ b :: l3) 0 Ha), Pb.
+  apply N.ltb_lt. rewrite app_length. cbn [length]. lia.
+Qed.
+
+Theorem topo_ok_complete vs es l : topo_order es vs l -> topo_ok vs es l = true.
+Proof.
+  unfold topo_ok, topo_order. intros [Hn [Hs Hf]]. rewrite !andb_true_iff. split; [split|].
+  - apply seteq_b_spec. exact Hs.
+  - apply nodup_b_complete. exact Hn.
+  - apply forallb_forall. intros [a b] He. cbn [fst snd].
+    destruct (Hf a b He) as (l1 & l2 & l3 & ->). apply before_complete. exact Hn.
+Qed.
